@@ -24,6 +24,9 @@ TECH = {
  "R19": "exhaustiveness of version switches over the syntax tree with type information",
  "R20": "lockset at reader-user and closer call sites (readers cannot hold a segment across its close)",
  "R21": "bounded-scan check: head segment file scans outside the writer lock are bounded by a size captured under it",
+ "R22": "segment typestate: no use of a segment value after its files were removed",
+ "R23": "must-pass-through accounting between a round of Log.Delete and every later return of the multi-round drivers",
+ "R24": "use-after-error: placeholder results of failed module calls never flow into a success return",
 }
 
 TEXT = {
@@ -58,6 +61,8 @@ def claimed():
 CLAIMED = {}
 for pid, rules in claimed().items():
     tech = "; ".join(TECH[r] for r in rules)
+    if len(tech) > 600:
+        tech = "; ".join(TECH[r].split(":")[0].split(" (")[0] for r in rules)
     CLAIMED[pid] = (", ".join(rules), tech, TEXT[pid], NOTE)
 
 NOT_YET = "no sound structural rule built yet for this property in this revision of the checker (see DESIGN.md section 5); will be claimed when its rules land"
